@@ -16,7 +16,7 @@ LEVEL = {"partial": ["floating-point rounding: results are compared to the exact
                      "NumPy's reductions themselves (np.mean, np.median, np.quantile, ...) are the assumed semantics; helpers on string columns are checked by the oracle only"]}
 ASSUMPTIONS = ["np.mean/median/var/std/quantile/sum/amin/amax/all/any as documented; statistics.mode returns the first encountered mode"]
 RULE = ("16 helpers x {float, int, bool, date} columns drawn from exactly representable pools with NaN/NaT, x drop_na in {default, True, False}, "
-        "ddof in {0,1}, index in -3..3, q in {0, 1/4, 1/2, 9/10, 1}; vector form on vectors of 0..8 elements and group-wise form on frames "
+        "ddof in {0,1,2}, index in -3..3, q in {0, 1/4, 1/2, 9/10, 1}; vector form on vectors of 0..8 elements and group-wise form on frames "
         "of 0..12 rows with 1..4 groups incl. singleton and all-missing groups (USE_NUMBA off); non-trivial = >=2 elements with a tie or a "
         "missing value (vector) / >=2 groups (group-wise); thorough adds all groups of <=4 values over a 4-value pool")
 
@@ -36,7 +36,7 @@ def gen_args(rng, helper):
     if helper not in ("all", "any"):
         a["drop_na"] = rng.choice([None, True, False])
     if helper in ("std", "var"):
-        a["ddof"] = rng.choice([0, 0, 1])
+        a["ddof"] = rng.choice([0, 0, 1, 2])
     if helper == "nth":
         a["index"] = rng.randint(-3, 3)
     if helper == "quantile":
@@ -322,10 +322,15 @@ def judge(ctx, case, obs, mouts):
         if isinstance(m, dict) and "err" in m:
             ctx.violation("correspondence", f"{helper}:model-error", f"model rejected the request: {m['err']}", case, obs, m)
         elif case["op"] == "vector":
-            if not agrees(obs["out"], model_to_exp(m)):
+            # n - ddof = 0: the statistic is a division by zero (NumPy: inf or nan with a warning); the model's
+            # rational arithmetic has no such value, the property names none: not compared
+            degenerate = helper in ("std", "var") and reference(helper, args, kind, vals) is None
+            if not degenerate and not agrees(obs["out"], model_to_exp(m)):
                 ctx.violation("correspondence", f"{helper}:vector:differs", "model and implementation disagree", case, obs, m)
         else:
-            if len(m) != len(obs["out"]) or not all(agrees(g, model_to_exp(x)) for g, x in zip(obs["out"], m)):
+            gs2 = groups_of(case)[1]
+            deg = [helper in ("std", "var") and reference(helper, args, kind, g) is None for g in gs2] if len(gs2) == len(m) else [False] * len(m)
+            if len(m) != len(obs["out"]) or not all(d or agrees(g, model_to_exp(x)) for g, x, d in zip(obs["out"], m, deg)):
                 ctx.violation("correspondence", f"{helper}:group:differs", "model and implementation disagree", case, obs, m)
     ctx.case_done(case, nontrivial)
 
